@@ -169,6 +169,16 @@ def body_for(kind, op, k):
         d = {'error': 'ForbiddenOperationException',
              'errorMessage': 'Invalid credentials %d.' % k}
         return json.dumps(d).encode(), 'application/json', d
+    if kind == 'full_extra':
+        # an error object with further members - among them names that
+        # collide with keyword names a formatter might use
+        d = {'error': 'ForbiddenOperationException',
+             'errorMessage': 'Invalid credentials %d. {0} {status_code} %%s' % k,
+             'cause': 'UserMigratedException', 'status_code': 599,
+             'status': 'x', 'path': '/authenticate', 'timestamp': 1,
+             'error_message': 'other', 'message': 'm', 'self': 1,
+             'format_spec': '', 'args': [1], 'kwargs': {'a': 1}, '0': 'z'}
+        return json.dumps(d).encode(), 'application/json', d
     if kind.startswith('full_ws'):
         # insignificant JSON whitespace around the error object
         d = {'error': 'ForbiddenOperationException',
@@ -603,7 +613,7 @@ def op_strategy():
                                 'full_utf8_raw', 'full_utf8_charset',
                                 'full_big', 'full_huge', 'full_ws_lf',
                                 'full_ws_crlf', 'full_ws_sp',
-                                'full_ws_tail'])
+                                'full_ws_tail', 'full_extra'])
     err = st.tuples(st.sampled_from(ERR_STATUS), err_body)
     user = st.sampled_from(['alice@example.org', 'bob', 'é'])
     pw = st.sampled_from(['hunter2', ''])
@@ -637,7 +647,8 @@ def t_subsets(ctx, lo, hi):
                (403, 'full_latin1'), (401, 'full_utf8_raw'),
                (403, 'full_utf8_charset'), (500, 'full_big'),
                (403, 'full_huge'), (403, 'full_ws_lf'),
-               (400, 'full_ws_crlf'), (403, 'full_ws_sp')]
+               (400, 'full_ws_crlf'), (403, 'full_ws_sp'),
+               (403, 'full_extra')]
     for init in subsets:
         for rep in replies:
             for op in (('authenticate', 'u', 'p', False),
@@ -665,7 +676,7 @@ def t_subsets(ctx, lo, hi):
             history_case(ctx, {'initial': [True] * 5, 'ops': ops})
     ctx.sample({'initial': [True, True, False, True, False],
                 'ops': [('refresh', 403, 'full')]}, 'subsets')
-    ctx.exhaustive_done('all 32 initial field subsets x 7 operations x 16 '
+    ctx.exhaustive_done('all 32 initial field subsets x 7 operations x 17 '
                         'reply classes (single step)')
 
 
